@@ -12,9 +12,9 @@ def _pd():
 class Profile(object):
     def inputs(self, case, rng, model, tier):
         pd = _pd()
-        for n in (1, 2, 3, 7, 200, 20001, 30000, 250000):
+        for n in list(range(1, 41)) + [200, 20001, 30000, 250000]:
             for dup in (0, 1):
-                for miss in (0, 1, 2):
+                for miss in (0, 1, 2, 5):
                     if dup + miss >= n and n > 1:
                         continue
                     yield dict(n=n, dup=dup, miss=miss, attrs=None if n % 2 else ['v', 'id'])
@@ -46,6 +46,14 @@ class Profile(object):
                 return '%s: unique %r, expected count %d' % (attr, row['Unique values'], u)
             if not row['Missing values'].startswith('%d (' % m):
                 return '%s: missing %r, expected count %d' % (attr, row['Missing values'], m)
+            # "(and percentage to two decimals)": the number between '(' and '%)' has at most two decimals
+            # and is the count's share of the rows
+            for (cell, cnt) in ((row['Unique values'], u), (row['Missing values'], m)):
+                pct = cell[cell.index('(') + 1:cell.rindex('%)')]
+                frac = pct.split('.')[1] if '.' in pct else ''
+                if len(frac) > 2 or 'e' in pct.lower() or abs(float(pct) - 100.0 * cnt / n) > 0.005 + 1e-9:
+                    return '%s: statistic %r is not the count with its percentage to two decimals (%d of %d rows)' % (
+                        attr, cell, cnt, n)
             key = (u == n and m == 0)
             says_key = row['Comments'] == 'This attribute can be used as a key attribute.'
             if says_key != key:
